@@ -41,6 +41,12 @@ TRANSLATED = ["KrroodVerif.Eql.Translated.C02_rewrites_translated_eq_model",
 
 
 def extra_obligations():
+    """the construction-time rewrites (below) and the evaluation methods (harness/translate/c01_translate.py)"""
+    from translate import c01_translate as T1
+    return rewrite_obligations() + T1.obligations(PID)
+
+
+def rewrite_obligations():
     """Second tie: regenerate the table of construction-time rewrites (`optimize_or`, `chained_logic`, `and_`/`or_`/`not_`/
     `exists`/`for_all`/`contains`/`in_`, every `_invert_` along the MRO) from /repo's CURRENT source (Python ast) and have
     the kernel re-check that it IS the table the model's `build` transcribes (`buildWith_rewrites_eq_build`) and that it
